@@ -84,7 +84,7 @@ def pres_kinds(scn):
              "flags:blocked", "flags:both", "debug"]
     kinds.append("flags:tf" if duck else "flags:tf@nonduck")
     if two:
-        kinds += ["table_order", "source_column"]
+        kinds += ["table_order", "source_column", "col_order"]
     if len(scn["rules"]) >= 2:
         kinds += ["rule_order"]
     if duck:
@@ -136,6 +136,8 @@ def apply_kind(rng: random.Random, scn, pres: dict, kind: str):
         pres["debug"] = True
     elif k == "table_order":
         pres["table_order"] = [1, 0]
+    elif k == "col_order":
+        pres["col_order"] = rng.randrange(1, 1 << 30)  # the later tables list the same columns in another order
     elif k == "source_column":
         pres["source_column"] = True
     elif k == "rule_order":
@@ -304,7 +306,16 @@ def run_impl(job: dict) -> dict:
             random.Random(pres["row_seed"] + 99).shuffle(allrows)
         linker = Linker(frame([r for _, r in allrows], with_sd=[al for al, _ in allrows]), settings, api)
     else:
-        linker = Linker([frame(rows) for _, rows in pt], settings, api, input_table_aliases=[al for al, _ in pt])
+        frames_ = [frame(rows) for _, rows in pt]
+        if pres.get("col_order"):
+            crng = random.Random(pres["col_order"])
+            for i in range(1, len(frames_)):
+                cols = list(frames_[i].columns)
+                perm = list(cols)
+                while perm == cols:
+                    crng.shuffle(perm)
+                frames_[i] = frames_[i][perm]
+        linker = Linker(frames_, settings, api, input_table_aliases=[al for al, _ in pt])
     if pres.get("debug"):
         linker._db_api.debug_mode = True
     out = {}
@@ -325,7 +336,8 @@ def _pipeline(linker, scn, pres, job, nm, multi, back_id, out):
 
     def rid(row, side):
         al = row["source_dataset" + side] if multi else ALIASES[0]
-        return back_id[(al, str(row[nm["uid"] + side]))]
+        key = (al, str(row[nm["uid"] + side]))
+        return back_id.get(key, ("?not-an-input-record", repr(key)))  # an id the inputs do not contain is a result to compare, not a harness error
 
     # 1. predict with the model's initial parameters: every column
     df_predict = linker.inference.predict(**(pres.get("flags") or {}))
@@ -349,7 +361,7 @@ def _pipeline(linker, scn, pres, job, nm, multi, back_id, out):
     clus = []
     for r in cc:
         al = r["source_dataset"] if multi else ALIASES[0]
-        node = back_id[(al, str(r[nm["uid"]]))]
+        node = back_id.get((al, str(r[nm["uid"]])), ("?not-an-input-record", repr((al, str(r[nm["uid"]])))))
         cid = str(r["cluster_id"])
         if multi:
             a, _, u = cid.partition(impl.SEP)
@@ -517,7 +529,10 @@ def score_request(scn, pairs):
     tfs = tf_tables(scn)
     ps = []
     for l, r in pairs:
-        x, y = rec[tup(l)], rec[tup(r)]
+        # an id that is not an input record (a real run can return one when it mangles its inputs) gets an all-NULL stand-in here;
+        # the comparison of the real outputs reports it
+        blank = {"a": None, "b": None, "c": None}
+        x, y = rec.get(tup(l), blank), rec.get(tup(r), blank)
         guards = [[c02.guard(lv, x[c["col"]], y[c["col"]]) for lv in c["levels"]] for c in scn["comparisons"]]
 
         def tfv(rr, col):
@@ -600,7 +615,7 @@ def minimise(scn, pres, thr):
     budget = 40
     # presentation kinds
     field_of = {"row_perm": ["row_seed"], "names": ["names"], "uidname": ["uidname"], "outnames": ["outnames"], "ids": ["idmap", "idtype"], "flags": ["flags"],
-                "debug": ["debug"], "table_order": ["table_order"], "source_column": ["source_column"], "rule_order": ["rule_order"], "threads": ["threads"], "salting": ["salting", "salt_seed"]}
+                "debug": ["debug"], "table_order": ["table_order"], "col_order": ["col_order"], "source_column": ["source_column"], "rule_order": ["rule_order"], "threads": ["threads"], "salting": ["salting", "salt_seed"]}
     if len(cur_p["kinds"]) > 1:
         for kind in list(cur_p["kinds"]):
             cand = dict(cur_p)
